@@ -135,6 +135,8 @@ theorem C05_arm (ext : Ext F) (s : Scalar) (a : Action) (v : GoVal F)
   | parseBoolKeep => simp [armSoundOut] at hs
   | timeOfFloat => simp [armSoundOut] at hs
   | timeOfInt => simp [armSoundOut] at hs
+  | timeOfIntChk => simp [armSoundOut] at hs
+  | timeOfFloatChk => simp [armSoundOut] at hs
   | timeParseKeep => simp [armSoundOut] at hs
   | convStrict t => simp [armSoundOut] at hs
   | convTrunc t => simp [armSoundOut] at hs
@@ -182,6 +184,24 @@ theorem C05_leaf (ext : Ext F) (laws : ExtLaws ext) (s : Scalar) (tbl : Table) (
       | int k n => simp [applyAction, checkOut, GoVal.kind, Scalar.outKind]
       | flt k x => cases k <;> simp_all [GoVal.kind, Kind.isInt, Kind.isFloat, GoVal.wf, kindRange]
       | _ => simp_all [GoVal.kind, Kind.isInt, kindRange]
+    · -- timeOfIntChk
+      cases v with
+      | int k n =>
+        simp only [applyAction]
+        split <;> simp [checkOut, GoVal.kind, Scalar.outKind]
+      | flt k x => cases k <;> simp_all [GoVal.kind, Kind.isInt, Kind.isFloat, GoVal.wf, kindRange]
+      | _ => simp_all [GoVal.kind, Kind.isInt, kindRange]
+    · -- timeOfFloatChk
+      cases v with
+      | flt k x =>
+        cases ht : ext.trunc x with
+        | none => simp [applyAction, ht, checkOut]
+        | some sec =>
+          by_cases hr : (decide (-9223372036 ≤ sec) && decide (sec ≤ 9223372036)) = true
+          · simp [applyAction, ht, hr, checkOut, GoVal.kind, Scalar.outKind]
+          · simp [applyAction, ht, hr, checkOut]
+      | int k n => cases k <;> simp_all [GoVal.kind, Kind.isFloat, GoVal.wf, kindRange]
+      | _ => simp_all [GoVal.kind, Kind.isFloat]
   · have hft' : tbl.formatTime = false := by
       rw [hft]; cases s <;> simp_all
     have hne : (s == Scalar.time) = false := by cases s <;> simp_all
